@@ -124,6 +124,8 @@ impl Peer {
                 if std::os::unix::fs::symlink(&np, &*l).is_err() {
                     return false;
                 }
+                // the old receiver's socket stays open (in `old`), its file name is no longer needed
+                let _ = std::fs::remove_file(&*path);
                 *path = np;
             } else {
                 let _ = std::fs::remove_file(&*path);
